@@ -20,7 +20,11 @@ The oracles never call libvna.
 import os
 import sys
 
-import numpy as np
+# one BLAS thread per worker process: the pool already uses every core
+for _v in ("OMP_NUM_THREADS", "OPENBLAS_NUM_THREADS", "MKL_NUM_THREADS"):
+    os.environ.setdefault(_v, "1")
+
+import numpy as np  # noqa: E402
 
 sys.path.insert(0, os.path.join(os.path.dirname(os.path.abspath(__file__)),
                                 "..", "pylib"))
@@ -1246,11 +1250,11 @@ def main():
     quick = chk.tier == "quick"
     sc = chk.args.scale
     plan = []      # (kind, chunks, per chunk)
-    plan.append(("conv", 16 if quick else 64, int((3000 if quick else 12000) * sc)))
-    plan.append(("sconv", 8 if quick else 32, int((600 if quick else 3000) * sc)))
-    plan.append(("ab", 16 if quick else 64, int((24 if quick else 250) * sc)))
-    plan.append(("ls", 16 if quick else 64, int((60 if quick else 600) * sc)))
-    plan.append(("sapi", 16 if quick else 64, int((24 if quick else 160) * sc)))
+    plan.append(("conv", 16 if quick else 64, int((3000 if quick else 24000) * sc)))
+    plan.append(("sconv", 8 if quick else 32, int((600 if quick else 6000) * sc)))
+    plan.append(("ab", 16 if quick else 64, int((24 if quick else 600) * sc)))
+    plan.append(("ls", 16 if quick else 64, int((60 if quick else 1500) * sc)))
+    plan.append(("sapi", 16 if quick else 64, int((24 if quick else 400) * sc)))
     payloads = []
     for kind, nch, per in plan:
         if ONLY and kind not in ONLY.split(","):
